@@ -150,6 +150,21 @@ class Arrays(Relation):
             if shape[0] <= 6:
                 items = list(pc)
                 ctx.check(len(items) == shape[0], 'iter | wrong count')
+                # iterations over the same coordinate do not share a cursor
+                pairs = list(zip(pc, pc))
+                nested = sum(1 for _ in pc for _ in pc)
+                it1 = iter(pc)
+                first = next(it1, None)
+                list(pc)
+                rest = list(it1)
+                ctx.check(len(pairs) == shape[0]
+                          and all(np.array_equal(a.x, b.x) for a, b in pairs)
+                          and nested == shape[0] ** 2
+                          and (first is None or len(rest) == shape[0] - 1),
+                          'iter | two iterations over one coordinate '
+                          'interfere with each other',
+                          f'zip: {len(pairs)} pairs, nested: {nested}, '
+                          f'after a second iteration: {len(rest)} left')
                 for k, it in enumerate(items):
                     ctx.check(isinstance(it, PixCoord)
                               and np.array_equal(it.x, bx[k])
